@@ -61,6 +61,12 @@ func main() {
 			os.MkdirAll(c.Scratch, 0o755)
 		}
 		res := ck.Run(c)
+		if res != nil && res.Counters != nil {
+			res.Counters["proc.leaked_maps_reclaimed"] += int64(c.MapsReclaimed)
+			if c.MapsMax > 30000 {
+				res.Notes = append(res.Notes, fmt.Sprintf("worker %d reached %d memory mappings", *shard, c.MapsMax))
+			}
+		}
 		if *only >= 0 {
 			b, _ := json.MarshalIndent(res, "", " ")
 			fmt.Println(string(b))
